@@ -75,21 +75,18 @@ def set_layer_cases(tier, layer):
     if layer == 'set2':
         return _set_cases(AB.A_PAIR_T if th else AB.A_PAIR, 2, [0])
     if layer == 'set2opt':
-        return _set_cases(AB.A_PAIR if th else AB.A_OPT_Q, 2, allo[1:])
+        return _set_cases(AB.A_OPT_T if th else AB.A_OPT_Q, 2, allo[1:])
     if layer == 'set3':
         return _set_cases(AB.A_TRIPLE_T if th else AB.A_TRIPLE_Q, 3, [0])
     if layer == 'set3opt':
-        return _set_cases(AB.A_TRIPLE, 3, allo[1:])
+        return _set_cases(AB.A_TRIPLE_Q, 3, allo[1:])
     if layer == 'set4':
         return _set_cases(AB.A_QUAD, 4, [0, 1])
     raise KeyError(layer)
 
 
 def hs_sources(tier):
-    L = ['set0', 'set1', 'set2', 'set2opt', 'set3']
-    if tier == 'thorough':
-        L += ['set3opt', 'set4']
-    return L
+    return ['set0', 'set1', 'set2', 'set2opt', 'set3']
 
 
 def eff_tier(tier):
@@ -165,8 +162,9 @@ class C14(Check):
              ('prngfake', 'E2: every random.sample answer, bracket invariant'),
              ('hashseed', 'same jobs under PYTHONHASHSEED 0,1,2 (children)')]
         if tier == 'thorough':
-            L[5:5] = [('set3opt', 'triples x 7 non-default option points'),
-                      ('set4', 'quadruples, all 24 orders, 2 option points')]
+            # the two largest layers last: a budget cap then costs least
+            L += [('set3opt', 'triples x 7 non-default option points'),
+                  ('set4', 'quadruples, all 24 orders, 2 option points')]
         return L
 
     def cases(self, tier, layer):
